@@ -552,6 +552,15 @@ func (p *parser) funcall(name string, pkg *ssa.Package) SVal {
 		if a, ok := fnAliases[name]; ok {
 			return SVal{s.MakeFn(a, ar...), types.Typ[types.Float64]}
 		}
+		if name == "deref" && len(as) == 1 {
+			var et types.Type
+			if as[0].T != nil {
+				if pt, ok := as[0].T.Underlying().(*types.Pointer); ok {
+					et = pt.Elem()
+				}
+			}
+			return SVal{s.MakeFn("deref", ar[0]), et}
+		}
 		if rawFns[name] {
 			if name == "addr" {
 				name = "&idx"
